@@ -1303,7 +1303,8 @@ class CompilerPassGatherCode(CompilerPass):
 
         num_lines = len(s.splitlines())
         num_registers = len(self.used_registers)
-        num_bytes = len(s) + num_lines - 1
+        # line ends count two bytes; an empty program has no line end
+        num_bytes = len(s) + max(num_lines - 1, 0)
 
         self.data.result = {
             "code": s,
